@@ -184,6 +184,7 @@ func main() {
 		crash := kit.NewFamily(c, "crash", evalCrash(false))
 		power := kit.NewFamily(c, "powerloss", evalCrash(true))
 		self := kit.NewFamily(c, "vos-selftest", evalSelfTest)
+		hist := kit.NewFamily(c, "history", evalHistory)
 		if c.Replaying() {
 			return
 		}
@@ -194,7 +195,13 @@ func main() {
 			"every subset of the data effects not followed by fsync with the last surviving write cut at every byte. " +
 			"distinct = distinct (pair, model, resulting disk image). Oracle: the real FileStorage.LoadSession on the image returns A's or B's " +
 			"bytes (or Loader.Load returns A's or B's Data; for a first save: not-found/empty or B). " +
-			"family vos-selftest: every sequence of 2 (thorough 3) calls of a 20-call alphabet run on vos and on the real os in a temp dir, same observations.")
+			"family vos-selftest: every sequence of 2 (thorough 3) calls of a 21-call alphabet run on vos and on the real os in a temp dir, same observations.")
+		c.Rule("family history: sequences of 2 (thorough also 3) saves with sessions of different lengths (longer then shorter, shorter then longer, " +
+			"equal, first save; quick 4 sequences, thorough every ordered triple of 4 shapes + 4 first-save sequences + 4 sequences of 3 saves): for every distinct " +
+			"post-crash disk of an earlier save (crash and power-loss models; every system call; torn writes cut at 1, len-1 and l-1,l,l+1 for the lengths l of " +
+			"the sessions in play) the client restarts and the next save runs on that disk, whose own crash images (last save of a 2-save history: every byte; " +
+			"3-save histories: the boundary alphabet) are loaded. Oracle per save: the file loads as the session that was loadable before that save or as the " +
+			"session being saved.")
 		c.Assume("lib/vos models the os calls and their durability (POSIX: fsync(file) persists that inode's data, fsync(dir) persists its entries in order; " +
 			"unsynced data may persist partially and independently of renames); a write system call is one log entry that can be cut at any byte")
 
@@ -253,6 +260,41 @@ func main() {
 			if c.Expired() {
 				c.NotExhaustive("time budget hit after %d crash images", total)
 				break
+			}
+		}
+		// 3. histories of saves over post-crash disks
+		{
+			a, b, a2, m := shape{2, 0, 7}, shape{4, 3, -1234567890123}, shape{2, 0, 9}, shape{3, 1, 123456}
+			b2 := shape{5, 3, -9876543210987}
+			var seqs [][]*shape
+			if c.Quick() {
+				seqs = [][]*shape{{&a, &b, &a2}, {&b, &a, &b2}, {&a, &b, &m}, {nil, &b, &a}}
+			} else {
+				all := []*shape{&a, &b, &a2, &m}
+				for _, x := range all {
+					for _, y := range all {
+						for _, z := range all {
+							if x != y && y != z {
+								seqs = append(seqs, []*shape{x, y, z})
+							}
+						}
+					}
+					seqs = append(seqs, []*shape{nil, &b, x})
+				}
+			}
+			var hcases int64
+			for _, sq := range seqs {
+				hcases += enumerateHistory(c, hist, sq, true)
+			}
+			if c.Thorough() {
+				for _, sq := range [][]*shape{{&a, &b, &m, &a2}, {&b, &m, &a, &b2}, {nil, &b, &m, &a}, {&a, &b, &b2, &a2}} {
+					hcases += enumerateHistory(c, hist, sq, false)
+				}
+			}
+			c.Set("history_sequences", len(seqs))
+			c.Set("history_cases", hcases)
+			if c.Expired() {
+				c.NotExhaustive("time budget hit inside the history enumeration (%d cases done)", hcases)
 			}
 		}
 		c.Set("pairs", len(pairs))
